@@ -999,7 +999,15 @@ impl DVec2 {
         let a = self.angle_to(rhs);
         let abs_a = math::abs(a);
         // When `max_angle < 0`, rotate no further than `PI` radians away
-        let angle = max_angle.clamp(abs_a - core::f64::consts::PI, abs_a) * math::signum(a);
+        // Not `clamp`: it panics when the bounds are NaN (zero-length or non-finite input).
+        let min_angle = abs_a - core::f64::consts::PI;
+        let angle = if max_angle < min_angle {
+            min_angle
+        } else if max_angle > abs_a {
+            abs_a
+        } else {
+            max_angle
+        } * math::signum(a);
         Self::from_angle(angle).rotate(*self)
     }
 
